@@ -444,6 +444,24 @@ def S_column_object(Q, n):
     return Q.create_table("t").columns(r["Column"](n, "INT", nullable=False, default=1))
 
 
+# JOIN .. USING (<names>) with joined items that carry an alias (given, automatic, derived table): the list holds bare names
+def S_using_aliased_item(Q, n):
+    t = _r()["Table"]("t")
+    return Q.from_(t).select(t.a).join(_r()["Table"]("u", alias="al")).using(n)
+
+
+def S_using_self_join(Q, n):
+    t = _r()["Table"]("t")
+    return Q.from_(t).select(t.a).join(_r()["Table"]("t")).using(n, "id")
+
+
+def S_using_subquery_item(Q, n):
+    r = _r()
+    t = r["Table"]("t")
+    s = Q.from_(r["Table"]("u")).select("id").as_("sq")
+    return Q.from_(t).select(t.a).left_join(s).using("id", n)
+
+
 # a schema-qualified (or aliased) Table object as the target of every statement kind
 def S_load_schema(Q, n):
     return Q.load("/f.csv").into(_r()["Table"]("t", schema=n))
@@ -521,6 +539,8 @@ EXPECT_IDENTS = {
     "create-case-twins": lambda n: ["t", n, n.swapcase(), "b", n.swapcase(), "b", n],
     "create-case-twins-reverse": lambda n: ["t", n.swapcase(), n, n, n.swapcase()],
     "create-columns": lambda n: ["t", n, "b", n, n],
+    "using-aliased-item": lambda n: ["t", "a", "t", "u", "al", n], "using-self-join": lambda n: ["t", "a", "t", "t", "t2", n, "id"],
+    "using-subquery-item": lambda n: ["t", "a", "t", "id", "u", "sq", "id", n],
     "load-schema": lambda n: [n, "t"], "load-database-chain": lambda n: [n, "sch", "tbl"],
     "insert-schema": lambda n: [n, "t"], "drop-schema": lambda n: [n, "t"], "create-schema": lambda n: [n, "t", "a"],
 }
